@@ -245,6 +245,14 @@ uint8_t* Exec::ensure_slot(int si) {
   }
   if (s.liballoc && fft64 && (s.type == T_BIG || s.type == T_DFT || s.type == T_PPOL || s.type == T_PMAT)) {
     const MODULE* m = (const MODULE*)mods[s.mod];
+    // the object comes from the library's own new_*: a fault while it is created or first written (an object smaller
+    // than bytes_of_*, a block that somebody else still owns) belongs to the object's life cycle, not to the harness
+    const int ltask = sim_current_task();
+    const int lslot = ltask >= 0 && ltask < 31 ? ltask : 31;
+    const int64_t saved_call = sim_fctx.cur_call[lslot];
+    const int saved_op = sim_fctx.cur_op[lslot];
+    sim_fctx.cur_call[lslot] = -2;
+    sim_fctx.cur_op[lslot] = s.type == T_BIG ? OP_LIFE_BIG : s.type == T_DFT ? OP_LIFE_DFT : s.type == T_PPOL ? OP_LIFE_PPOL : OP_LIFE_PMAT;
     if (s.type == T_BIG)
       p = (uint8_t*)new_vec_znx_big(m, s.size);
     else if (s.type == T_DFT)
@@ -254,6 +262,8 @@ uint8_t* Exec::ensure_slot(int si) {
     else
       p = (uint8_t*)new_vmp_pmat(m, s.size, s.sl);
     if (nb) sim_fill(p, nb, fill, fseed);  // the slot's own garbage plan, independent of what other tasks allocate
+    sim_fctx.cur_call[lslot] = saved_call;
+    sim_fctx.cur_op[lslot] = saved_op;
     owned[si] = 2;
   } else if (s.reserve) {
     // host of a future neighbour: one block, the reserve stays inaccessible (asan) until the neighbour is carved
